@@ -1014,6 +1014,24 @@ func signCaseWith(t *testing.T, run *emit.Run, r *rand.Rand, it item, fromCorpus
 		}
 		real = stored
 	}
+	if it.Kind == "batch" {
+		// the BytesToSign a freshly built batch is stored with (what pigeon is handed to sign)
+		eb := it.batch()
+		if in, err := eb.ToInternal(); err == nil {
+			ra, err1 := skywaytypes.NewEthAddress(common.HexToAddress(it.Relayer).Hex())
+			nb, err2 := skywaytypes.NewInternalOutgingTxBatch(in.BatchNonce, in.BatchTimeout, in.Transactions, in.TokenContract, 0,
+				in.ChainReferenceID, string(it.Turnstone), in.Assignee, ra, in.GasEstimate)
+			if err1 == nil && err2 == nil {
+				run.Count("path", "batch-constructor-bytes-to-sign")
+				if !bytes.Equal(nb.BytesToSign, real) || !bytes.Equal(nb.ToExternal().BytesToSign, real) {
+					run.Violate("C05:batch-stored-signbytes-differ", fmt.Sprintf("batch built by NewInternalOutgingTxBatch carries BytesToSign %x, GetCheckpoint gives %x", nb.BytesToSign, real),
+						map[string]any{"kind": "sign", "a": it})
+				}
+			} else {
+				run.Count("path", "batch-constructor-rejected")
+			}
+		}
+	}
 	inner, outer, err := it.preimages()
 	if err != nil {
 		t.Fatalf("reconstruction failed: %v", err)
